@@ -579,6 +579,14 @@ impl ConstraintSystem<'_> {
     }
 }
 
+#[cfg(feature = "verif-hooks")]
+impl ConstraintSystem<'_> {
+    /// The `(id, guess)` list this system hands to the solver.
+    pub fn verif_initial_guesses(&self) -> Vec<(crate::Id, f64)> {
+        self.initial_guesses.variables()
+    }
+}
+
 /// Outcome of successfully solving a constraint system.
 #[derive(Debug)]
 pub struct Outcome {
